@@ -66,6 +66,20 @@ func builtinAttrs(name string) map[string]ugo.Object {
 		"fn": &ugo.Function{Name: "fn", Value: func(args ...ugo.Object) (ugo.Object, error) {
 			return ugo.Int(base*100 + int64(len(args))), nil
 		}},
+		// call(f, args...) calls f back from Go (compiled functions run on a child VM of the caller)
+		"call": &ugo.Function{Name: "call", ValueEx: func(c ugo.Call) (ugo.Object, error) {
+			if c.Len() < 1 {
+				return ugo.Undefined, ugo.ErrWrongNumArguments.NewError("want>=1 got=0")
+			}
+			rest := make([]ugo.Object, 0, c.Len())
+			for i := 1; i < c.Len(); i++ {
+				rest = append(rest, c.Get(i))
+			}
+			inv := ugo.NewInvoker(c.VM(), c.Get(0))
+			inv.Acquire()
+			defer inv.Release()
+			return inv.Invoke(rest...)
+		}},
 	}
 }
 
@@ -140,6 +154,10 @@ func (b *builder) imp(name string) gen.Expr {
 			b.classes["in-loop"] = true
 		case "fn":
 			b.classes["in-function"] = true
+		case "callback":
+			b.classes["in-callback"] = true
+		case "try":
+			b.classes["in-try"] = true
 		}
 	}
 	if strings.HasPrefix(name, "b") {
@@ -206,13 +224,16 @@ func (b *builder) buildModule(i int) {
 	m.noRet = b.chance("noret", 10)
 	m.params = 0
 	if b.chance("modparam", 15) {
-		m.params = rapid.IntRange(1, 2).Draw(b.rt, "nparams")
+		m.params = rapid.IntRange(1, 3).Draw(b.rt, "nparams")
 	}
 	var body []gen.Stmt
-	if m.params == 1 {
+	switch m.params {
+	case 1:
 		body = append(body, &gen.ParamDecl{Names: []string{"q0"}})
-	} else if m.params == 2 {
+	case 2:
 		body = append(body, &gen.ParamDecl{Names: []string{"q0", "q1"}})
+	case 3:
+		body = append(body, &gen.ParamDecl{Names: []string{"q0", "qs"}, Variadic: true})
 	}
 	body = append(body, &gen.GlobalDecl{Names: []string{"L", "g0", "g1"}})
 	body = append(body, logS(str("load "+m.name)))
@@ -223,6 +244,9 @@ func (b *builder) buildModule(i int) {
 	add := func(k string, v gen.Expr) { keys = append(keys, k); vals = append(vals, v) }
 	if m.params > 0 {
 		add("q", id("q0"))
+	}
+	if m.params == 3 {
+		add("nq", call(id("len"), id("qs")))
 	}
 	add("inc", fn(nil, inc("n"), ret(id("n"))))
 	add("get", fn(nil, ret(id("n"))))
@@ -344,7 +368,7 @@ func (b *builder) buildModule(i int) {
 
 // ------------------------------------------------------------ main script
 
-var kindRank = map[string]int{"same-scope": 0, "var": 1, "conditional": 2, "loop": 3, "function": 4, "via-module": 5}
+var kindRank = map[string]int{"same-scope": 0, "var": 1, "conditional": 2, "loop": 3, "function": 4, "via-module": 5, "callback": 6}
 
 func exotic(ks ...string) string {
 	best := "same-scope"
@@ -366,6 +390,8 @@ func (b *builder) ctxKind() string {
 			k = exotic(k, "loop")
 		case "fn":
 			k = exotic(k, "function")
+		case "callback":
+			k = exotic(k, "callback")
 		}
 	}
 	return k
@@ -399,6 +425,15 @@ func (b *builder) path(t string, depth int) (gen.Expr, string) {
 				opts = append(opts, opt{"function", func() gen.Expr { return call(id(f.name)) }})
 			}
 		}
+	}
+	if len(b.builtins) > 0 {
+		opts = append(opts, opt{"callback", func() gen.Expr {
+			bm := b.pick("cbmod", b.builtins)
+			var e gen.Expr
+			bi := b.imp(bm)
+			b.in("callback", func() { e = call(sel(bi, "call"), fn(nil, ret(b.imp(t)))) })
+			return e
+		}})
 	}
 	if depth == 0 {
 		for _, u := range b.mods {
@@ -560,6 +595,27 @@ func (b *builder) action(depth int) []gen.Stmt {
 				return []gen.Stmt{push(sel(p, k))}
 			}},
 		)
+		acts = append(acts,
+			act{2, func() []gen.Stmt { // two imports inside one expression
+				pa, _ := b.path(b.pick("t", rm), 0)
+				pb, _ := b.path(b.pick("t", rm), 0)
+				if b.chance("pairarr", 50) {
+					return []gen.Stmt{push(&gen.ArrayLit{Elems: []gen.Expr{call(sel(pa, "inc")), sel(pb, "k"), call(sel(pb, "get"))}})}
+				}
+				return []gen.Stmt{push(bin("+", call(sel(pa, "inc")), bin("*", num(10), call(sel(pb, "inc")))))}
+			}},
+		)
+		if len(b.builtins) > 0 {
+			acts = append(acts, act{2, func() []gen.Stmt { // import inside a callback invoked from Go
+				bi := b.imp(b.pick("cbmod", b.builtins))
+				var e gen.Expr
+				b.in("callback", func() {
+					p, _ := b.path(b.pick("t", rm), 0)
+					e = call(sel(bi, "call"), fn([]string{"d"}, ret(bin("+", call(sel(p, "inc")), id("d")))), num(100))
+				})
+				return []gen.Stmt{push(e)}
+			}})
+		}
 		// functions exposed by modules
 		type mf struct{ u, f string; arg bool }
 		var mfs []mf
@@ -653,6 +709,14 @@ func (b *builder) action(depth int) []gen.Stmt {
 					}
 				})
 				return []gen.Stmt{ifs(c, then, els)}
+			}},
+			act{2, func() []gen.Stmt {
+				var body, fin []gen.Stmt
+				b.in("try", func() {
+					body = b.actions(depth+1, rapid.IntRange(1, 2).Draw(b.rt, "ntry"))
+					fin = b.actions(depth+1, 1)
+				})
+				return []gen.Stmt{&gen.Try{Body: body, HasCatch: b.chance("catch", 50), CatchIdent: "e", Catch: []gen.Stmt{push(num(-1))}, HasFinally: true, Finally: fin}}
 			}},
 			act{3, func() []gen.Stmt {
 				k := b.loopCount()
